@@ -122,7 +122,11 @@ def record_random(args):
         s1, s2 = r.randbytes(32), r.randbytes(32)
         sv = r.choice(['true', 'true', 'false'])
         x5 = r.randbytes(5)
-        body = r.choice([b'', push(x5) + push(x5) + op('EQUAL_VERIFY'), op('TRUE') + op('VERIFY')])
+        body = r.choice([b'', push(x5) + push(x5) + op('EQUAL_VERIFY'), op('TRUE') + op('VERIFY'),
+                         # a block followed by mandatory instructions (a stale RETURN marker would end the script at the block)
+                         op('TRUE') + b'\x2b\x00\x03' + push(b'\x07') + op('POP0') + op('TRUE') + op('VERIFY'),
+                         # committed scripts whose size sits on a push-size boundary (the script-spend witness pushes the script)
+                         push(r.randbytes(r.choice([245, 246, 247, 248, 249, 250]))) + op('POP0')])
         script = push(b'\x51') + op('POP0') + body + (op('TRUE') if sv == 'true' else op('FALSE'))
         oscript = push(b'\x52') + op('POP0') + body + (op('TRUE') if sv == 'true' else op('FALSE'))
         sf = {f'sigfield{i}': r.randbytes(r.choice([1, 8, 50])) for i in range(1, 9) if r.random() < 0.5}
@@ -147,6 +151,19 @@ def record_random(args):
                 raise
             got = [f'raised-{type(e).__name__}', 'noexec']
         out.append({'w': w, 'fl': fl, 'sv': sv, 'lock': lk, 'got': got})
+        # exactly two levels of call budget left for the lock (what the non-native lock needs): both locks accept
+        if r.random() < 0.15:
+            L = r.choice([2, 3, 4, 8, 128])
+            burn = op('DEF', b1(9), b'\x00\x00') + op('CALL', b1(9)) * (L - 2)
+            bs = push(b'\x51') + op('POP0') + op('TRUE')
+            bo = push(b'\x52') + op('POP0') + op('TRUE')
+            try:
+                a = one(F, T, s1, s2, bs, bo, 'scriptspend', 'f0', 'native', sf, burn, limit=L)
+                b = one(F, T, s1, s2, bs, bo, 'scriptspend', 'f0', 'nonnative', sf, burn, limit=L)
+                out.append({'w': 'eq', 'fl': 'f0', 'sv': 'true', 'lock': 'both', 'got': [a[0], b[0]] if a[0] == 'true' else [a[0], 'native-verdict-wrong']})
+            except BaseException as e:
+                if isinstance(e, (KeyboardInterrupt, SystemExit)):
+                    raise
         # native vs non-native when the witness has burnt k calls and the committed script makes d calls: both verdicts
         # must agree away from the budget edge (the non-native lock itself spends 2 calls)
         if r.random() < 0.25:
